@@ -90,6 +90,16 @@ CHECKS = {
   text="Descriptors generated from a grammar over every function and legal nesting (origins, xpub/xprv/WIF/hex keys, plain and hardened wildcards, multipath, musig) are derived at boundary and random indexes on all networks and compared with BIP32 + hand-assembled scripts; parse(str(d)) == d, normalized/at_index/multipath expansion, checksum == BIP380 reference, every single-character substitution and deletion refused; index_of / position_of / assert_derives are inverse to derivation for every wallet kind and answer 'not mine' for foreign scripts.",
   note="Trusted base: rv/ref/scripts.py, descsum.py, bip32.py, taproot.py, bip390.py (self-tested on Core descriptor vectors, BIP380/387/390/328/327/67/341 vectors). Miniscript inside wsh()/tr() is C15's.",
   ref="DESIGN.md section 3 C14"),
+ "C15": dict(
+  technique="runtime monitoring: type-directed expression generation, identities on the real compiler/parser, satisfactions executed on the library's engine and on the independent Core model under an executed-op / stack-depth meter hooked into the interpreter, semantic evaluator of the spending condition as oracle for 'condition false'",
+  text="For sane miniscript expressions of both contexts (seeded with the vendored corpus, grown by same-type subtree replacement): len(script()) == script_size, from_script(script()) compiles back to the same script, parse(str(node)) == node; for many assignments of available signatures, preimages, lock time and sequence values around every after()/older(): a produced witness must be accepted by verify_input on a real P2WSH / tapscript spend and by rv/ref/core.py, stay within max_witness_size / max_stack_items / max_ops (metered by hooks on script_op_count and assert_stack_size), and exist only where an independent semantic evaluator says the spending condition is true.",
+  note="Trusted base: rv/ref/miniscript.py (BIP379 table, semantic evaluator, self-tested against an exhaustive witness search under the Core model on small expressions), rv/ref/core.py, rv/ref/signers.py. The converse (condition true, no satisfaction) is a statistic.",
+  ref="DESIGN.md section 3 C15"),
+ "C12": dict(
+  technique="runtime monitoring: reference-model monitor (BIP341 reference functions over the independent EC model), exhaustive single-bit alteration of control block / script / output key, fault injection on taproot.tagged_hash, both arms",
+  text="For generated internal keys (every accepted spelling, both parities) and script trees (balanced, chains to depth 128, repeated leaves, other leaf versions): output keys and parity equal the BIP341 tweak, tweaked private keys generate the output key, every produced control block proves its leaf (reference verifier, check_output_pubkey and the engine's unwrap), every single-bit or length alteration of control block, script, leaf version or output key fails, invalid internal keys and injected out-of-range tweaks are refused; TrDescriptor merkle roots/leaf scripts and BIP86 derivation agree with the same reference.",
+  note="Trusted base: rv/ref/taproot.py over rv/ref/ec.py (174 BIP341 wallet-vector checks and the BIP86 vectors in every shard).",
+  ref="DESIGN.md section 3 C12"),
 }
 
 def main():
